@@ -38,7 +38,7 @@ func safeName(s string) string {
 	return s
 }
 
-func report(prop string, cfg *PropConfig, w *World, results []*FnResult, missing []string, tier string, seed int, t0 time.Time, loadSec, genSec float64, verbose, updateBaseline bool) int {
+func report(prop string, cfg *PropConfig, w *World, results []*FnResult, missing []string, tier string, seed int, t0 time.Time, loadSec, genSec float64, verbose, updateBaseline bool, bounded []BoundedResult) int {
 	baseline := loadBaseline(prop)
 	known := map[string]*KnownFinding{}
 	kfs := loadKnownFindings()
@@ -178,9 +178,32 @@ func report(prop string, cfg *PropConfig, w *World, results []*FnResult, missing
 		os.WriteFile(path, data, 0o644)
 		fmt.Printf("VIOLATION property=%s replay=%s obligation=%q%s\n", prop, path, o.Name, suffix)
 	}
+	for _, b := range bounded {
+		if b.Error != "" {
+			fmt.Printf("UNDECIDED: bounded stand-in %s did not run: %s\n", b.Name, firstLines(b.Error, 3))
+			continue
+		}
+		fmt.Printf("BOUNDED %s: %s; %d violations; bound: %s\n", b.Name, b.Summary, len(b.Violations), b.Bound)
+		if len(b.Violations) > 0 {
+			violations++
+			path := filepath.Join(replayDir, safeName("bounded_"+b.Name)+".json")
+			data, _ := json.MarshalIndent(map[string]interface{}{"property": prop, "obligation": "bounded:" + b.Name, "kind": "bounded stand-in (exhaustive up to the stated bound, through the real code)",
+				"bound": b.Bound, "failing_inputs": b.Violations, "command": b.Command}, "", " ")
+			os.WriteFile(path, data, 0o644)
+			fmt.Printf("VIOLATION property=%s replay=%s obligation=%q first=%q\n", prop, path, "bounded:"+b.Name, b.Violations[0])
+		}
+	}
 	var kfLines []string
-	for k, obls := range knownHit {
-		kfLines = append(kfLines, fmt.Sprintf("KNOWN-FINDING: property=%s %s [obligations still failing: %s] input: %s", prop, k.What, strings.Join(obls, ", "), k.Input))
+	for i := range kfs {
+		k := &kfs[i]
+		if k.Property != prop || k.Status == "fixed" {
+			continue
+		}
+		still := ""
+		if obls := knownHit[k]; len(obls) > 0 {
+			still = " [obligations failing: " + strings.Join(obls, ", ") + "]"
+		}
+		kfLines = append(kfLines, fmt.Sprintf("KNOWN-FINDING: property=%s %s%s input: %s", prop, k.What, still, k.Input))
 	}
 	sort.Strings(kfLines)
 	for _, l := range kfLines {
